@@ -13,12 +13,12 @@
 EXTENDS Wire
 
 CONSTANT MaxLen
-VARIABLES tmpl, seq, dom, okRecs, failAdv, nmsg, open,
+VARIABLES tmpl, seq, dom, okRecs, failAdv, nmsg, open, nextTid, jsonMode,
           inflight,     \* sequence of [dom, seq, set] transmitted and not yet delivered or lost
           lossy         \* TRUE for UDP / DTLS
 
 E == INSTANCE Exporter
-plvars == << tmpl, seq, dom, okRecs, failAdv, nmsg, open, inflight, lossy >>
+plvars == << tmpl, seq, dom, okRecs, failAdv, nmsg, open, nextTid, jsonMode, inflight, lossy >>
 
 PInit(d, l) == E!ExInit(d, <<0, 0>>) /\ inflight = << >> /\ lossy = l
 
@@ -50,10 +50,10 @@ Deliver(i, m) ==
   /\ lossy \/ i = 1
   /\ Same(inflight[i], m)
   /\ inflight' = SubSeq(inflight, i + 1, Len(inflight))
-  /\ UNCHANGED << tmpl, seq, dom, okRecs, failAdv, nmsg, open, lossy >>
+  /\ UNCHANGED << tmpl, seq, dom, okRecs, failAdv, nmsg, open, nextTid, jsonMode, lossy >>
 
 Lose == lossy /\ inflight # << >> /\ inflight' = Tail(inflight)
-        /\ UNCHANGED << tmpl, seq, dom, okRecs, failAdv, nmsg, open, lossy >>
+        /\ UNCHANGED << tmpl, seq, dom, okRecs, failAdv, nmsg, open, nextTid, jsonMode, lossy >>
 
 \* a reliable transport has delivered everything when the session ends
 SessionEnd == (lossy \/ inflight = << >>) /\ UNCHANGED plvars
